@@ -7,6 +7,9 @@
 //!
 //! case: (b CAP (sp I…) (win W…) (ops OP…))   — see lean/EmitModel/Driver/Batcher.lean for the op grammar and output format.
 //! Watcher ids ≥ 5000 register a callback that panics after recording that it ran.
+//! The channel is a harness-defined type (`Ch`, a `Vec<u64>` behind `emit_batcher::Channel`): windows W ::= (n K …) |
+//! (l K …) | (v K …) script sender ops from INSIDE the K-th call the receiver itself makes of `Channel::new` / `len` /
+//! `with_capacity`; whether the state lock is held there is probed (`lock_is_free`), `+held` = nothing can run there.
 //!
 //! Implementation-side oracles (computed from the observed I/O alone, no model):
 //!   c06-partition     every first-attempt batch is exactly the accepted-and-not-truncated items not yet delivered,
@@ -67,24 +70,22 @@ struct Proj {
     /// keep the third component of the `|queue_length/truncated/blocked` suffix
     blocked: bool,
     counters: bool,
-    /// keep the `+held` verdicts of the channel windows (the hand-off's critical section is what C07 rests on)
-    held: bool,
     oracles: &'static [&'static str],
 }
 
 #[allow(dead_code)]
 const FULL: Proj =
-    Proj { events: "!?~cwdP+", tags: true, queue: true, blocked: true, counters: true, held: true, oracles: &["c0", "receiver"] };
+    Proj { events: "!?~cwdP+", tags: true, queue: true, blocked: true, counters: true, oracles: &["c0", "receiver"] };
 /// C06: every on_batch argument, the send / try_send results, queue length + truncation counter, termination
-const P06: Proj = Proj { events: "cdP+", tags: true, queue: true, blocked: false, counters: false, held: false, oracles: &["c06"] };
+const P06: Proj = Proj { events: "cdP+", tags: true, queue: true, blocked: false, counters: false, oracles: &["c06"] };
 /// C07: when each flush callback ran (or was dropped) relative to the on_batch calls and their outcomes
-const P07: Proj = Proj { events: "!~cP", tags: false, queue: false, blocked: false, counters: false, held: true, oracles: &["c07"] };
+const P07: Proj = Proj { events: "!~cP", tags: false, queue: false, blocked: false, counters: false, oracles: &["c07"] };
 /// C08: calls, wait durations, every callback invocation, termination, the batch counters
 const P08: Proj =
-    Proj { events: "!?~cwdP", tags: false, queue: false, blocked: false, counters: true, held: false, oracles: &["c08", "receiver"] };
+    Proj { events: "!?~cwdP", tags: false, queue: false, blocked: false, counters: true, oracles: &["c08", "receiver"] };
 /// C09: the queue length, the truncation counter and the blocked counter after every operation (and inside
 /// callbacks / windows: `+q=…`), the try_send / blocking-send results
-const P09: Proj = Proj { events: "+", tags: true, queue: true, blocked: true, counters: false, held: false, oracles: &["c09"] };
+const P09: Proj = Proj { events: "+", tags: true, queue: true, blocked: true, counters: false, oracles: &["c09"] };
 
 fn project(full: &str, p: &Proj) -> String {
     let (trace, fails) = match full.split_once('\t') {
@@ -113,7 +114,7 @@ fn project(full: &str, p: &Proj) -> String {
         let mut t = if p.tags || tag == "x" { tag.to_string() } else { "-".to_string() };
         for e in parts {
             let c = e.chars().next().unwrap_or(' ');
-            if p.events.contains(c) || (p.held && e == "+held") {
+            if p.events.contains(c) {
                 t.push(',');
                 t.push_str(e);
             }
